@@ -111,6 +111,8 @@ Perturbed(s, v) ==
                   toks |-> Wrap(ReplaceAt(cs, j, [i |-> 0, toks |-> Chunk(ty, Fields(s)[cs[j].i].id)]))] :
                   ty \in RetagTypes(TType(Fields(s)[cs[j].i].type))} : j \in 1..Len(cs) }
   \cup {[kind |-> "drop", id |-> Fields(s)[cs[j].i].id, at |-> j, toks |-> Wrap(RemoveAt(cs, j))] : j \in 1..Len(cs)}
+  \* only the first j fields are on the wire (every tail of the field list missing at once)
+  \cup {[kind |-> "prefix", at |-> j, toks |-> Wrap(SubSeq(cs, 1, j))] : j \in 0..(Len(cs) - 2)}
 
 \* a retag to the field's own type is a legitimate re-encoding with another payload; keep it (the reader must take it)
 
